@@ -16,7 +16,9 @@ SIGMA_B = ["a", " ", "''", "'''", "[[a]]", "[[", "]]", "{{T}}", "{{{1}}}", "}}",
            "&amp;", "&#65;", "\n* ", "\n== h ==\n", "\n ", "\n{|", "\n|}", "<nowiki>", "</nowiki>", "<pre>", "<ref>", "<noinclude>",
            "</noinclude>", "<includeonly>", "<onlyinclude>", "<br/>", "</div>", "__TOC__", "http://x", "~~~~", "\n\n", "<math>",
            # entity-escaped markup (how help pages document the tags), stray ampersands, other entity spellings
-           "&lt;nowiki&gt;", "&lt;/nowiki&gt;", "&lt;b&gt;", "&#60;", "&#x3E;", "&amp;lt;", "&quot;", "&", "&amp ", "&bogus;"]
+           "&lt;nowiki&gt;", "&lt;/nowiki&gt;", "&lt;b&gt;", "&#60;", "&#x3E;", "&amp;lt;", "&quot;", "&", "&amp ", "&bogus;",
+           # closing tags of the OTHER opaque tags (a body never contains its own)
+           "</source>", "</pre>", "</math>", "</syntaxhighlight>", "</timeline>"]
 S0, S1 = "Sxq0", "Sxq1"
 CONTEXTS = [
     ("top", "%s", {}),
@@ -28,6 +30,10 @@ CONTEXTS = [
     ("in-ref", "x<ref>r %s</ref>y", {}),
     ("in-poem", "<poem>\nline %s\n</poem>", {}),
     ("in-ref-in-arg", "{{E|x<ref>%s</ref>}}", {"E": "{{{1}}}"}),
+    # the same, parsed without a wiki database (parse_string(..., wikidb=None))
+    ("in-ref-nodb", "x<ref>r %s</ref>y", None),
+    ("in-poem-nodb", "<poem>\nline %s\n</poem>", None),
+    ("top-nodb", "%s", None),
     ("positional-arg", "{{E|%s}}", {"E": "{{{1}}}"}),
     ("named-arg", "{{N|x=%s}}", {"N": "{{{x}}}"}),
     ("template-body", "{{B}}", None),
@@ -46,7 +52,7 @@ CONTEXTS = [
 # functions that consume their argument (MediaWiki drops the markers of protected regions there): the region need not arrive,
 # but no debris of a marker may reach the document
 CONSUMING = {"urlencode-arg": "{{urlencode:%s}}", "anchorencode-arg": "{{anchorencode:%s}}", "padright-fill": "{{padright:x|40|%s}}",
-             "padleft-fill": "{{padleft:x|40|%s}}"}
+             "padleft-fill": "{{padleft:x|40|%s}}", "displaytitle": "{{DISPLAYTITLE:%s}}"}
 DEBRIS = re.compile("UNIQ-|-QINU|\x7f")
 HEAVY_CONTEXTS = ["beside-deep-braces"]  # (parsing the page costs ~10 ms: shorter bodies)
 SENTINEL_CASE = {"lc-arg": str.lower, "uc-arg": str.upper}
@@ -91,9 +97,9 @@ def shape(node, out):
 
 class C09(InputProp):
     id = "C09"
-    rule = ("6 tags x 19 contexts (+ 4 argument-consuming functions judged by 'no marker debris') x every body over a 50-lexeme markup alphabet up to the length bound (bodies containing the tag's own "
+    rule = ("6 tags x 22 contexts (with and without a wiki database; + 5 argument-consuming functions judged by 'no marker debris') x every body over a 55-lexeme markup alphabet up to the length bound (bodies containing the tag's own "
             "closing tag excluded); distinct = distinct (tag, context, tree shape) outcomes")
-    assumptions = ("bodies are sequences of the 50 lexemes of SIGMA_B", "the reserved marker byte 0x7f does not occur in bodies (excluded by the statement)")
+    assumptions = ("bodies are sequences of the 55 lexemes of SIGMA_B", "the reserved marker byte 0x7f does not occur in bodies (excluded by the statement)")
     chunk = 1500
     soft_timeout = 20.0
 
@@ -121,12 +127,14 @@ class C09(InputProp):
         inner = "%s%s<%s>%s</%s>%s<%s>w</%s>" % (S0, GLUE.get(ctxname, ""), tag, body, tag, S1, tag, tag)
         if ctxname == "template-body":
             return "{{B}}", {"B": inner, "T": "tt"}
-        pg = dict(pages)
+        pg = dict(pages or {})
         pg["T"] = "tt"
         return tmpl % inner, pg
 
     def tree(self, tag, ctxname, body):
         text, pages = self.page(tag, ctxname, body)
+        if ctxname.endswith("-nodb"):
+            return self.parse(title="Test", raw=text, wikidb=None, lang="en"), text
         return self.parse(title="Test", raw=text, wikidb=LangDB("en", pages), lang="en"), text
 
     def baseline(self, tag, ctxname):
@@ -220,7 +228,7 @@ class C09(InputProp):
             leaves(t, out)
             alltext = "".join(out)
             viol = []
-            if DEBRIS.search(alltext) or not alltext.startswith("before ") or not alltext.rstrip().endswith(" after"):
+            if DEBRIS.search(alltext + str(getattr(t, "caption", ""))) or not alltext.startswith("before ") or not alltext.rstrip().endswith(" after"):
                 viol.append({"sig": "%s|debris:%s:%s" % (self.feature(lex, tag), tag, ctxname),
                              "msg": "page %r: pieces of a region marker reach the document: %r" % (text, alltext[:200])})
             return {"key": (tag, ctxname, bool(viol)), "steps": 1, "viol": viol}
